@@ -41,6 +41,15 @@ type Server struct {
 	servers  []*http.Server
 	// Requests counts handled requests by "METHOD path-class".
 	Requests map[string]int
+	// value the current holder stored under the primary key (what other nodes read)
+	primaryValue []byte
+}
+
+// PrimaryValue returns the bytes the current holder put under the primary key.
+func (s *Server) PrimaryValue() []byte {
+	s.mu.Lock()
+	defer s.mu.Unlock()
+	return append([]byte(nil), s.primaryValue...)
 }
 
 func New(svc *lease.Service) *Server {
@@ -178,6 +187,9 @@ func (s *Server) serve(node string, nl *lease.NodeLeaser, w http.ResponseWriter,
 				return
 			}
 			b, _ := json.Marshal(info)
+			if v := s.PrimaryValue(); len(v) > 0 {
+				b = v // what the holder itself stored
+			}
 			writeJSON(w, []map[string]any{{"Key": key, "Value": base64.StdEncoding.EncodeToString(b), "Session": "held", "CreateIndex": 1, "ModifyIndex": 2}})
 		case r.Method == http.MethodPut && isCluster:
 			s.count("PUT kv/clusterid")
@@ -190,6 +202,7 @@ func (s *Server) serve(node string, nl *lease.NodeLeaser, w http.ResponseWriter,
 		case r.Method == http.MethodPut && q.Get("acquire") != "":
 			s.count("PUT kv?acquire")
 			id := q.Get("acquire")
+			body, _ := io.ReadAll(r.Body)
 			s.mu.Lock()
 			ss := s.sessions[id]
 			s.mu.Unlock()
@@ -209,6 +222,7 @@ func (s *Server) serve(node string, nl *lease.NodeLeaser, w http.ResponseWriter,
 				}
 				s.mu.Lock()
 				ss.lease, ss.node = l, node
+				s.primaryValue = body
 				s.mu.Unlock()
 				writeJSON(w, true)
 			case ss.node != node:
@@ -223,6 +237,7 @@ func (s *Server) serve(node string, nl *lease.NodeLeaser, w http.ResponseWriter,
 				}
 				s.mu.Lock()
 				ss.lease, ss.node = l, node
+				s.primaryValue = body
 				s.mu.Unlock()
 				writeJSON(w, true)
 			default:
